@@ -639,8 +639,21 @@ func runSpec(w *bufio.Writer, e *env, d string) error {
 		h = append(h, r)
 	}
 	w.WriteString(e.runHistory(kv[0], h))
+	if concrete {
+		// the concrete requests, for a human reading a replay file
+		var l []map[string]any
+		for _, r := range h {
+			if p, err := r.params(); err == nil {
+				l = append(l, map[string]any{"query": p.Query, "extensions": p.Extensions})
+			}
+		}
+		b, _ := json.Marshal(l)
+		w.WriteString("json\t" + string(b) + "\n")
+	}
 	return nil
 }
+
+var concrete bool
 
 func main() {
 	tier := flag.String("tier", "quick", "quick|thorough")
@@ -662,6 +675,7 @@ func main() {
 		fmt.Fprintf(w, "tab\t%d\t%s\t%s\t%d\n", i, hex.EncodeToString([]byte(t.s)), t.sha, v)
 	}
 	if *replay != "" {
+		concrete = true
 		if err := runSpec(w, newEnv(), *replay); err != nil {
 			w.Flush()
 			fmt.Fprintln(os.Stderr, err)
@@ -681,7 +695,7 @@ func main() {
 	case "random":
 		k := *n
 		if k == 0 {
-			k = 3000
+			k = 6000
 			if *tier == "thorough" {
 				k = 60000
 			}
@@ -709,7 +723,7 @@ func main() {
 		}
 		k := *n
 		if k == 0 {
-			k = 3000
+			k = 6000
 			if *tier == "thorough" {
 				k = 60000
 			}
